@@ -232,6 +232,27 @@ func (w *world) monitor(op Op, cls Class, err error, p *pre, before, after *snap
 		return r.amt
 	}
 	neg := func(x *big.Int) *big.Int { return new(big.Int).Neg(x) }
+	// the in-operation sync (SyncSupplyInterest / SyncBorrowInterest) and the query-level
+	// GetSyncedDeposit / GetSyncedBorrow (loadSynced*) are separately written; what the user
+	// saw as claimable / owed just before the operation is what the operation must start from
+	if isMsg && p.syncOK {
+		if q := before.sbor[p.target]; q.kind == 2 && op.Kind != "deposit" {
+			for d := 0; d < nD; d++ {
+				if q.amt[d].Cmp(p.bor[d]) != 0 {
+					return "sync-agrees-with-query", "sync-borrow-disagrees-with-getsyncedborrow", fmt.Sprintf("user %d denom %s: GetSyncedBorrow %s, synced in %s %s", p.target, denoms[d], q.amt[d], op.Kind, p.bor[d])
+				}
+			}
+		}
+		if q := before.sdep[p.target]; q.kind == 2 && op.Kind != "repay" {
+			for d := 0; d < nD; d++ {
+				if df := new(big.Int).Sub(q.amt[d], p.dep[d]); df.CmpAbs(big.NewInt(1)) > 0 {
+					return "sync-agrees-with-query", "sync-deposit-disagrees-with-getsynceddeposit", fmt.Sprintf("user %d denom %s: GetSyncedDeposit %s, synced in %s %s", p.target, denoms[d], q.amt[d], op.Kind, p.dep[d])
+				} else if df.Sign() != 0 && op.Kind == "withdraw" && coins[d].Cmp(q.amt[d]) > 0 && df.Sign() < 0 {
+					return "withdraw-capped", "withdraw-exceeds-getsynceddeposit-by-one", fmt.Sprintf("user %d denom %s: GetSyncedDeposit %s, withdrawn %s", p.target, denoms[d], q.amt[d], p.dep[d])
+				}
+			}
+		}
+	}
 	switch op.Kind {
 	case "deposit":
 		for d := 0; d < nD; d++ {
@@ -370,7 +391,7 @@ func (w *world) monitor(op Op, cls Class, err error, p *pre, before, after *snap
 				in, e := w.hk.IsWithinValidLtvRange(ctx, d, b)
 				if e == nil && !in {
 					sg := "accepted-" + op.Kind + "-outside-ltv-range"
-					if op.Kind == "borrow" {
+					if op.Kind == "borrow" && w.splitValuationGap(after, dv, p.bor, coins) {
 						sg = "accepted-borrow-liquidatable-split-valuation"
 					}
 					return "ltv-gate", sg, fmt.Sprintf("user %d after %s %v: IsWithinValidLtvRange=false (deposit %s borrow %s, limit %s value %s)", u, op.Kind, op.Coins, vecStr(dv), vecStr(bv), lim.FloatString(19), val.FloatString(19))
@@ -378,7 +399,7 @@ func (w *world) monitor(op Op, cls Class, err error, p *pre, before, after *snap
 			}
 			if w.liquidatable(u) {
 				sg := "accepted-" + op.Kind + "-liquidatable"
-				if op.Kind == "borrow" {
+				if op.Kind == "borrow" && w.splitValuationGap(after, dv, p.bor, coins) {
 					sg = "accepted-borrow-liquidatable-split-valuation"
 				}
 				return "ltv-gate", sg, fmt.Sprintf("user %d can be liquidated right after a successful %s", u, op.Kind)
@@ -387,6 +408,38 @@ func (w *world) monitor(op Op, cls Class, err error, p *pre, before, after *snap
 	}
 	_ = sdkmath.ZeroInt
 	return "", "", ""
+}
+
+// usdDec is the valuation expression of the keeper, in the library's own Dec arithmetic
+func (w *world) usdDec(s *snap, d int, a *big.Int) sdk.Dec {
+	return sdk.NewDecFromBigInt(a).Quo(sdk.NewDecFromBigInt(w.cf[d])).Mul(sdk.NewDecFromBigIntWithPrec(s.price[d], 18))
+}
+
+// splitValuationGap recognises the precise shape of the known disagreement between
+// ValidateBorrow and IsWithinValidLtvRange: valued separately, old and new borrow are within
+// the limit; valued as one sum per denom they exceed it.
+func (w *world) splitValuationGap(s *snap, dep, old, add []*big.Int) (gap bool) {
+	defer func() {
+		if r := recover(); r != nil {
+			gap = false
+		}
+	}()
+	limit, split, joint := sdk.ZeroDec(), sdk.ZeroDec(), sdk.ZeroDec()
+	for d := 0; d < nMkt; d++ {
+		if dep[d].Sign() != 0 {
+			limit = limit.Add(w.usdDec(s, d, dep[d]).Mul(dec(w.cfg.Markets[d].LTV)))
+		}
+		if old[d].Sign() != 0 {
+			split = split.Add(w.usdDec(s, d, old[d]))
+		}
+		if add[d].Sign() != 0 {
+			split = split.Add(w.usdDec(s, d, add[d]))
+		}
+		if sum := new(big.Int).Add(old[d], add[d]); sum.Sign() != 0 {
+			joint = joint.Add(w.usdDec(s, d, sum))
+		}
+	}
+	return split.LTE(limit) && joint.GT(limit)
 }
 
 // ------------------------------------------------------------ case splits
